@@ -101,6 +101,8 @@ def parse_units(path):
                         sec = ("at", "fn_start", None)
                     elif rest == "tail":
                         sec = ("at", "tail", None)
+                    elif rest == "tail_unit":
+                        sec = ("at", "tail_unit", None)
                     elif mm:
                         sec = ("at", "loop_" + mm.group(2), int(mm.group(1)))
                     else:
